@@ -122,6 +122,74 @@ def dist_raise_ok(path):
     return isinstance(path.exc, ValueError) and "monoton" in str(path.exc).lower()
 
 
+FN_CFE = "hypnotoad.core.equilibrium:PsiContour.checkFineContourExtend"
+
+
+class Extended(Exception):
+    pass
+
+
+def check_extend_lattice(S):
+    """BOUNDED stand-in (the symbolic run needs comparisons of nested square roots that the
+    solvers leave undecided within the budget): the real PsiContour.checkFineContourExtend on a
+    lattice of positions of the contour's end points around the ends of a fixed generic fine
+    contour.  It returns without extending only if neither end point lies beyond the fine
+    contour, and otherwise extends exactly the end(s) concerned by enough points to reach."""
+    import time
+
+    from hypnotoad.core.equilibrium import Point2D, PsiContour
+
+    t0 = time.time()
+    pos = numpy.array([(0.0, 0.0), (1.0, 0.0), (2.5, 0.5), (3.4, 1.3)])
+    dist = numpy.concatenate([[0.0], numpy.cumsum(numpy.sqrt(numpy.sum((pos[1:] - pos[:-1]) ** 2, axis=1)))])
+    calls = []
+
+    class Fine:
+        positions, distance = pos, dist
+
+        def extend(self, *, psi, extend_lower=0, extend_upper=0):
+            calls.append((extend_lower, extend_upper))
+            raise Extended()
+
+    def beyond(p, end):
+        d = numpy.sqrt(numpy.sum((pos - numpy.array(p)) ** 2, axis=1))
+        k, nb = (0, 1) if end == "lower" else (len(pos) - 1, len(pos) - 2)
+        seg = numpy.sqrt(numpy.sum((pos[k] - pos[nb]) ** 2))
+        margin = min(abs(d[k] - numpy.delete(d, k)).min(), abs(d[nb] - seg))
+        return bool(numpy.argmin(d) == k and d[nb] > seg), margin, d[k]
+
+    n = m = 40 if S.tier == "quick" else 120
+    bad, evals, classes = [], 0, set()
+    interior = (1.2, 0.05)
+    for end in ("lower", "upper"):
+        e = pos[0] if end == "lower" else pos[-1]
+        for i in range(n + 1):
+            for j in range(m + 1):
+                p = (e[0] - 1.2 + 2.4 * i / n, e[1] - 1.2 + 2.4 * j / m)
+                want, margin, dk = beyond(p, end)
+                if margin < 1e-9:
+                    continue  # on a decision boundary: either answer is acceptable
+                c = object.__new__(PsiContour)
+                c.points = [Point2D(*p), Point2D(*interior)] if end == "lower" else [Point2D(*interior), Point2D(*p)]
+                c.get_fine_contour = lambda psi=None: Fine()
+                del calls[:]
+                try:
+                    PsiContour.checkFineContourExtend(c, psi=None)
+                    got = (0, 0)
+                except Extended:
+                    got = calls[0]
+                evals += 1
+                classes.add((end, want))
+                mine, other = (got[0], got[1]) if end == "lower" else (got[1], got[0])
+                ds = dist[1] - dist[0] if end == "lower" else dist[-1] - dist[-2]
+                ok = (mine >= 1) == want and other == 0 and (not want or mine * ds >= dk - 1e-12)
+                if not ok and len(bad) < 5:
+                    bad.append(dict(end=end, point=p, beyond_the_fine_contour=want, extend_lower_upper=got, distance_to_end=float(dk), ds=float(ds)))
+    S.bounded.append(dict(name="checkFineContourExtend on a lattice of end-point positions", evaluations=evals, distinct_nontrivial=len(classes), rule="fixed generic 4-point fine contour; first / last contour point on a %dx%d lattice of side 2.4 around the lower / upper end; extension requested at that end iff the end fine point is the nearest one and the point is farther from its neighbour than the end segment is long, by at least ceil(distance/ds) >= 1 points, never at the other end; distinct = (end, beyond?)" % (n + 1, m + 1), bound="%d positions" % evals, samples=[dict(end="upper", point=[3.9, 1.9], beyond=True)], failures=bad, wall_s=round(time.time() - t0, 1)))  # fmt: skip
+    if bad:
+        S.static_vc("bounded:checkFineContourExtend-lattice", FN_CFE, "the fine contour is extended exactly when an end point of the contour lies beyond it, and far enough", False, detail=repr(bad[:2]), kind="bounded-native", model=bad[0])
+
+
 def build(S):
     S.under_contract(FN_HY, FN_PD, "hypnotoad.core.equilibrium:PsiContour.get_distance")
     S.assume("A-SHAPE: calcHy proved at nx=1, ny=2 for the four combinations of lower/upper neighbour; all distance values symbolic")
@@ -147,3 +215,5 @@ def post(S):
 
     gridrun.run(S, ["hy_vs_poloidal_distance", "poloidal_distance_monotone", "arc_vs_chord"], FN_HY, name="hy / poloidal_distance consistency on generated grids")
     C05_bounded.run(S)
+    S.under_contract(FN_CFE)
+    check_extend_lattice(S)
